@@ -30,6 +30,9 @@ TRUSTED = [
     'C20: urllib.parse.urlsplit is modelled on printable ASCII without whitespace; validity of a bracketed IPv6 / '
     'IPvFuture literal (urllib.parse._check_bracketed_host -> ipaddress) enters the model as a boolean',
     'C20: posixpath.join / dirname as modelled (correspondence runs the real ones)',
+    'C20 store stream: the stores are written by the library itself (KeychainSqlite3.initialize, TpmFile.save_key) into a plainly '
+    'named directory once per run and copied from there; one identity row is inserted with sqlite3 directly; no system-wide '
+    'client.conf exists on the machine (else cases without a user file are not judged); HOME is always set in this stream',
 ]
 RULE = ('three streams: (conf) product of presence/absence and values of NDN_CLIENT_TRANSPORT/PIB/TPM x 0..3 existing '
         'candidate files (comments, blank lines, missing keys, upper-case keys, = and : delimiters, rarely a repeated key; '
@@ -53,7 +56,22 @@ RULE = ('three streams: (conf) product of presence/absence and values of NDN_CLI
         'targeted streams: empty-string environment variables, no / only a later / every candidate file, a first file lacking a '
         'key a later one has, values containing = # ; :, CRLF and unterminated files, unix://<absolute path> URIs, all '
         'scheme x host x port corners; the platform defaults themselves are judged against the documented Linux table. '
-        'non-trivial = conf: a result was returned and at least one of environment/file contributed; face: a face was '
+        '(store; oracle only, on a real scratch directory - /dev/shm when there is one - with HOME, NDN_CLIENT_* and the working '
+        'directory really set and nothing of the library patched) the configured stores are built for real: every file name '
+        '(components of HOME = the directory of client.conf, of absolute / file-relative / working-directory-relative pib and tpm '
+        'locations from the file and from the environment) is drawn from plain pieces mixed with pieces that mean something to '
+        'some parser: %HH (valid, invalid, %2F, %00), bare % and %%, ? and ?k=v, #, blanks and tab, ~, $ / $$ / $(..), = ; & + , @ ! '
+        'quotes, brackets, braces, glob patterns ([a], *.db, {a,b}), format templates (%s, %(x)s, {0}), backslash escapes, regex '
+        'text, non-ASCII in both normal forms, case-folding specials, trailing dots, : (HOME only); each pib location holds a '
+        'PIB with its own identity, each tpm location its own key file, and look-alike stores are placed under the names a careless '
+        'reading of the configured name gives (URI-decoded, cut at ? # ; or blank, stripped, lower-cased, NFC/NFD, quotes '
+        'dropped, bracket class collapsed). Judged: the strings of read_client_conf as above, and behind them that '
+        'default_keychain opens (no exception for an existing well-formed store), that the keychain lists exactly the identity '
+        'put into the store the statement names, that its key store sees exactly the key put into the named key store, that a '
+        'key saved through it lands inside that directory, and that opening changed no file outside the named store. '
+        'Behind VERIF_C20_DOLLAR=1 (not in the default stream: fails on the unchanged library, see the report) HOME itself '
+        'holds the text $HOME / ${HOME} / $NDN_CLIENT_PIB. '
+        'non-trivial = store: a keychain was opened and listed an identity; conf: a result was returned and at least one of environment/file contributed; face: a face was '
         'returned; kc: a keychain was constructed')
 
 ENVKEYS = ['transport', 'pib', 'tpm']
@@ -281,7 +299,7 @@ end Ndn.Gen.C20
 
 
 # ------------------------------------------------------------------------------ cases
-HOMES = ['/home/u', '/root', '/h']
+HOMES = ['/home/u', '/root', '/h', '/home/a%41b', '/home/u#1', '/h?x=1', '/home/u=v;w', '/home/u:2', '/home/a$', '/h~/u.', "/home/[a]'q'"]
 ABS_LOCS = ['/var/lib/ndn/pib', '/data/keys', '/k', '/data/k=1', '/srv/a#b;c', '/data/k%20x', '/srv/%(home)s/pib', '/p%%q',
             '/data/$HOME/pib', '/srv/${HOME}k', '/data/keys/']
 # (a location is literal text: '$HOME', '${HOME}' and '~' in it are not expanded - "used as given")
@@ -580,9 +598,9 @@ def _targeted_face():
 
 def _kc_case(rng):
     pib = rng.choice(['pib-sqlite3:/a/b', 'pib-sqlite3:', 'pib-sqlite3', 'pib-memory:', 'pib-sqlite3:rel', 'pib-sqlite3:/a/',
-                      'pib-sqlite3:/a:b', 'PIB-SQLITE3:/a', ':', ''])
+                      'pib-sqlite3:/a:b', 'PIB-SQLITE3:/a', ':', '', 'pib-sqlite3:/a%41/b#c?d=e', 'pib-sqlite3:/h~/[a]/$x/k.', 'pib-sqlite3:/a;b=c/%/'])
     tpm = rng.choice(['tpm-file:/k', 'tpm-file:', 'tpm-file', 'tpm-file:rel:x', 'tpm-osxkeychain:', 'tpm-cng:', 'tpm-xx:/a',
-                      'tpm-file:/home/u/.ndn/ndnsec-key-file', 'tpm-osxkeychain', ':', ''])
+                      'tpm-file:/home/u/.ndn/ndnsec-key-file', 'tpm-osxkeychain', ':', '', 'tpm-file:/k%20x/y#z?w', 'tpm-file:/a:b/c', 'tpm-file:/~/{0}/%s'])
     return {'op': 'kc', 'pib': pib, 'tpm': tpm}
 
 
@@ -691,6 +709,176 @@ def _targeted_parse():
         yield {'op': 'parse', 'text': t}
 
 
+# ------------------------------------------------------------------------------ real stores on a real file system
+# (op 'store', oracle only).  The streams above see the file system as a predicate on strings and stop at the strings
+# returned; this one builds the configured stores for real in a scratch directory whose names are drawn from everything
+# a POSIX file name may hold, runs read_client_conf + default_keychain unpatched with HOME / NDN_CLIENT_* / the working
+# directory set, and observes WHICH store is open (the identities the keychain lists, the keys its key store sees, where
+# a key saved through it lands) and what happened to every other file.
+T = '@T@'                                            # stands for the scratch directory in a case
+PLAIN_PIECES = ['ndn', 'keys', 'store', 'pib', 'k', 'data', 'u', 'a', 'b1', 'X']
+SPECIAL_PIECES = ['%41', '%20', '%2e', '%2F', '%00', '%C3%A9', '%', '%%', '%4', '%zz', '?', '?x=1', '?mode=ro', '#', '#2', ' ', '  ',
+                  '~', '$', '$$', '${', '=', ';', '&', '+', ',', '@', '!', "'", '"', '(', ')', '[', ']', '{', '}', '*', '\\', '|', '<',
+                  '>', '^', '`', 'é', 'é', 'ü', '名', 'ß', 'İ', '.', '..', '-', '\t', ':',
+                  '[a]', '[!a]', '*.db', '{0}', '{}', '{a,b}', '%s', '%d', '%(x)s', '\\n', '\\x41', '&&', '$(id)', '(?i)', '.*', '^$', '\u212a']
+
+
+def _component(rng, special, colon_ok=False, tail_ok=True):
+    """one file name: plain, or plain pieces around 1-3 pieces that mean something to some parser (URI, shell, INI, glob)"""
+    if not special:
+        return rng.choice(PLAIN_PIECES)
+    while True:
+        parts = []
+        for _ in range(rng.choice([1, 1, 2, 3])):
+            if rng.random() < 0.7:
+                parts.append(rng.choice(PLAIN_PIECES))
+            parts.append(rng.choice(SPECIAL_PIECES))
+        if rng.random() < 0.7:
+            parts.append(rng.choice(PLAIN_PIECES))
+        c = ''.join(parts)
+        if c in ('.', '..') or (':' in c and not colon_ok):
+            continue
+        if c != c.strip() and not tail_ok:           # (the INI reader strips the ends of a value: not a name a file can give)
+            continue
+        if c.startswith('~') and rng.random() < 0.8:
+            continue
+        if re.search(r'\$(\w|\{[^}]*\})', c):       # '$name' inside a name: see VERIF_C20_DOLLAR below
+            continue
+        return c
+
+
+def _rel_path(rng, psp, tail_ok=False):
+    n = rng.choice([1, 1, 2])
+    cs = [_component(rng, rng.random() < psp, tail_ok=(tail_ok or i < n - 1)) for i in range(n)]
+    if cs[0] != cs[0].lstrip():
+        cs[0] = 'x' + cs[0]
+    return '/'.join(cs)
+
+
+def _misreadings(path):
+    """other names a careless handler of `path` could end up at: URI decoding and truncation, stripped blanks and dots,
+    case and Unicode normal forms, quotes dropped, '+' for blank, doubled characters halved"""
+    import unicodedata
+    from urllib.parse import unquote
+    strip = lambda f: '/'.join(f(c) for c in path.split('/'))     # noqa
+    out = []
+    for v in (unquote(path), path.split('#')[0], path.split('?')[0], strip(str.strip), strip(lambda c: c.rstrip('.')),
+              path.lower(), unicodedata.normalize('NFC', path), unicodedata.normalize('NFD', path),
+              path.replace('"', '').replace("'", ''), path.replace('+', ' '), path.replace('%%', '%').replace('$$', '$'),
+              path.replace('\\', '/'), path.split(';')[0], path.split(' ')[0], posixpath.normpath(path),
+              re.sub(r'\[!?(.)\]', r'\1', path), path.replace('\\x41', 'A').replace('\\n', '\n'), path.casefold()):
+        v = v.replace(T.lower(), T)
+        if (v != path and v.startswith(T + '/') and '\x00' not in v and v not in out
+                and all(c and c not in ('.', '..') for c in v[len(T) + 1:].split('/'))):
+            out.append(v)
+    return out
+
+
+def _store_case(rng, dollar=False):
+    psp = rng.choice([0.0, 0.5, 0.9, 0.9])
+    home = T + '/' + '/'.join(_component(rng, rng.random() < psp, colon_ok=True) for _ in range(rng.choice([1, 1, 2])))
+    if dollar:
+        home += rng.choice(['/a$HOME', '/${HOME}', '/u$NDN_CLIENT_PIB'])
+    cwd = T + '/' + _component(rng, rng.random() < psp / 2)
+    confdir = home + '/.ndn'
+    dirs, labels = [], {'pib': 0, 'tpm': 0}
+
+    def place(path, kind):
+        if any(d[0] == path for d in dirs):
+            return
+        if kind == 'dir':
+            dirs.append([path, 'dir', ''])
+            return
+        dirs.append([path, kind, '%s%d' % (kind[0], labels[kind])])
+        labels[kind] += 1
+
+    def setting(key):
+        scheme = rng.choice(['pib-sqlite3'] * 7 + ['pib-memory', 'x', ''] if key == 'pib' else ['tpm-file'] * 7 + ['tpm-memory', 'y', ''])
+        r = rng.random()
+        if r < 0.1:
+            return scheme + rng.choice(['', ':'])
+        r = rng.random()
+        if r < 0.4:
+            loc = T + '/' + _rel_path(rng, psp)
+            at = [loc]
+        elif r < 0.75:
+            loc = _rel_path(rng, psp)
+            if rng.random() < 0.1:
+                loc = '../' + loc
+            at = [posixpath.join(confdir, loc)]
+        else:
+            loc = _rel_path(rng, psp)
+            at = [posixpath.join(cwd, loc)] + ([posixpath.join(confdir, loc)] if rng.random() < 0.5 else [])
+        if rng.random() < 0.85:
+            for a in at:
+                place(posixpath.normpath(a), key if rng.random() < 0.9 else 'dir')
+        if rng.random() < 0.08:
+            loc += '/'
+        return scheme + ':' + loc
+
+    env = {k: None for k in ENVKEYS}
+    lines = None
+    if rng.random() < 0.75:
+        lines = []
+        keys = [k for k in ENVKEYS if rng.random() < 0.75]
+        rng.shuffle(keys)
+        for k in keys:
+            if rng.random() < 0.15:
+                lines.append(rng.choice([['c', '# a comment'], ['b'], ['c', ';pib=pib-sqlite3:/commented']]))
+            lines.append(['kv', k if rng.random() < 0.85 else k.upper(), rng.choice(TRANSPORTS) if k == 'transport' else setting(k),
+                          rng.randrange(4)])
+    for k in ENVKEYS:
+        if rng.random() < 0.3:
+            env[k] = rng.choice(TRANSPORTS) if k == 'transport' else setting(k)
+    if lines is not None or rng.random() < 0.8:
+        place(confdir, 'pib' if rng.random() < 0.75 else 'dir')
+        if rng.random() < 0.8:
+            place(confdir + '/ndnsec-key-file', 'tpm')
+    # look-alike stores next to the real ones
+    for path, kind, _ in list(dirs):
+        for v in _misreadings(path):
+            if rng.random() < 0.5:
+                place(v, kind if kind != 'dir' else rng.choice(['pib', 'tpm']))
+    rng.shuffle(dirs)
+    case = {'op': 'store', 'home': home, 'cwd': cwd, 'conf': lines, 'env': env, 'dirs': dirs}
+    if rng.random() < 0.2:
+        case['eol'] = 'crlf'
+    return case
+
+
+def _targeted_store():
+    """a configured store and a different store under the name a URI / shell / INI reading of the configured name gives,
+    reached through each source in turn: the file (absolute, relative to the file), the environment over a file naming the
+    look-alike, the platform default under a HOME with such a name, the working directory"""
+    pairs = [('ndn%20store', 'ndn store'), ('pib#2', 'pib'), ('k?mode=ro', 'k'), ('a%41', 'aA'), ('keys.', 'keys'), ('k ;x', 'k'),
+             ('sté', 'sté'), ('Keys', 'keys'), ('a+b', 'a b'), ("'q'", 'q'), ('a%2Fb', 'a/b'), ('k[a]', 'ka'), ('plain', 'other')]
+    for real, fake in pairs:
+        for hsp in (False, True):
+            home = T + '/' + (real if hsp else 'home') + '/u'
+            confdir = home + '/.ndn'
+            dflt = [[confdir, 'pib', 'p9'], [confdir + '/ndnsec-key-file', 'tpm', 't9']]
+            both = lambda base: [[base + '/' + real, 'pib', 'p0'], [base + '/' + fake, 'pib', 'p1'],     # noqa
+                                 [base + '/' + real + '/t', 'tpm', 't0'], [base + '/' + fake + '/t', 'tpm', 't1']]
+            none = {k: None for k in ENVKEYS}
+            base = {'op': 'store', 'home': home, 'cwd': T + '/cwd'}
+            ab = T + '/srv'
+            yield dict(base, env=none, dirs=both(ab) + dflt,
+                       conf=[['kv', 'pib', 'pib-sqlite3:' + ab + '/' + real, 0], ['kv', 'tpm', 'tpm-file:' + ab + '/' + real + '/t', 1]])
+            yield dict(base, env=none, dirs=both(confdir) + dflt,
+                       conf=[['kv', 'pib', 'pib-sqlite3:' + real, 2], ['kv', 'tpm', 'tpm-file:' + real + '/t', 0]])
+            yield dict(base, env={'transport': None, 'pib': 'pib-sqlite3:' + ab + '/' + real, 'tpm': 'tpm-file:' + ab + '/' + real + '/t'},
+                       dirs=both(ab) + dflt,
+                       conf=[['kv', 'pib', 'pib-sqlite3:' + ab + '/' + fake, 0], ['kv', 'tpm', 'tpm-file:' + ab + '/' + fake + '/t', 1]])
+            yield dict(base, env={'transport': None, 'pib': 'pib-sqlite3:' + real, 'tpm': 'tpm-file:' + real + '/t'},
+                       dirs=both(T + '/cwd') + dflt, conf=None)
+            if hsp:
+                fh = T + '/' + fake + '/u/.ndn'
+                yield dict(base, env=none, conf=None, dirs=dflt + [[fh, 'pib', 'p1'], [fh + '/ndnsec-key-file', 'tpm', 't1']])
+                yield dict(base, env=none, conf=[['kv', 'transport', 'tcp://h:1', 0]],
+                           dirs=dflt + [[fh, 'pib', 'p1'], [fh + '/ndnsec-key-file', 'tpm', 't1']])
+
+
+
 def cases(rng, tier):
     yield from _targeted_parse()
     for i in range(3000 if tier == 'quick' else 60000):
@@ -705,6 +893,10 @@ def cases(rng, tier):
         yield _face_case(rng) if rng.random() < 0.93 else _unix_case(rng)
     for i in range(n // 5):
         yield _kc_case(rng)
+    yield from _targeted_store()
+    dollar = bool(os.environ.get('VERIF_C20_DOLLAR'))      # HOME holding the text '$HOME': see the finding in RULE
+    for i in range(120 if tier == 'quick' else 8000):
+        yield _store_case(rng, dollar and i % 4 == 0)
 
 
 def shrink(case):
@@ -721,6 +913,20 @@ def shrink(case):
         ex = case['exists']
         for i in range(len(ex)):
             yield dict(case, exists=ex[:i] + ex[i + 1:])
+    elif case['op'] == 'store':
+        for k in ENVKEYS:
+            if case['env'][k] is not None:
+                yield dict(case, env=dict(case['env'], **{k: None}))
+        ds = case['dirs']
+        for i in range(len(ds)):
+            yield dict(case, dirs=ds[:i] + ds[i + 1:])
+        if case['conf'] is not None:
+            yield dict(case, conf=None)
+            ls = case['conf']
+            for j in range(len(ls)):
+                yield dict(case, conf=ls[:j] + ls[j + 1:])
+        if 'eol' in case:
+            yield {k: v for k, v in case.items() if k != 'eol'}
     elif case['op'] == 'face':
         u = case['uri']
         for i in range(len(u)):
@@ -760,7 +966,247 @@ def _bracket_ok(uri):
     return True
 
 
+# ---- op 'store': the real functions on a real scratch directory
+_TEMPLATES = {}
+
+
+def _scratch_parent():
+    return '/dev/shm' if os.path.isdir('/dev/shm') and os.access('/dev/shm', os.W_OK) else None
+
+
+def _template(kind, label):
+    """content of a store as the library itself writes it (made once per run in a plainly named directory): a PIB whose only
+    identity is /pib/<label>, or the file a file key store keeps for the key /tpm/<label>/KEY/k -> {file name: bytes}"""
+    if (kind, label) in _TEMPLATES:
+        return _TEMPLATES[kind, label]
+    import tempfile, shutil, sqlite3
+    from ndn.encoding import Name
+    d = tempfile.mkdtemp(prefix='c20tpl', dir=_scratch_parent())
+    try:
+        if kind == 'pib':
+            from ndn.security import KeychainSqlite3
+            assert KeychainSqlite3.initialize(d + '/s/pib.db', 'tpm-file', d + '/s/t')
+            conn = sqlite3.connect(d + '/s/pib.db')
+            conn.execute('INSERT INTO identities (identity, is_default) VALUES (?, 1)', (bytes(Name.to_bytes('/pib/' + label)),))
+            conn.commit()
+            conn.close()
+            out = {'pib.db': open(d + '/s/pib.db', 'rb').read()}
+        else:
+            from ndn.security import TpmFile
+            os.mkdir(d + '/t')
+            TpmFile(d + '/t').save_key(Name.from_str('/tpm/' + label + '/KEY/k'), b'marker ' + label.encode())
+            out = {f: open(d + '/t/' + f, 'rb').read() for f in os.listdir(d + '/t')}
+    finally:
+        shutil.rmtree(d, ignore_errors=True)
+    _TEMPLATES[kind, label] = out
+    return out
+
+
+def _snapshot(root):
+    """every entry below root -> 'dir' or (inode, digest of the content) of a file"""
+    import hashlib
+    snap, todo = {}, [root]
+    while todo:
+        d = todo.pop()
+        with os.scandir(d) as it:
+            for e in it:
+                if e.is_dir(follow_symlinks=False):
+                    snap[e.path] = 'dir'
+                    todo.append(e.path)
+                else:
+                    try:
+                        with open(e.path, 'rb') as f:
+                            snap[e.path] = (e.inode(), hashlib.sha1(f.read()).hexdigest())
+                    except OSError:
+                        snap[e.path] = (e.inode(), 'unreadable')
+    return snap
+
+
+def _store_settings(case):
+    """from the statement: per store key the setting in force (environment, else the user's file, else the documented
+    scheme) and the locations the statement speaks about, in order: as given, against the file's directory, the default"""
+    conf = case['home'] + '/.ndn/client.conf' if case['conf'] is not None else None
+    dflt = {'pib': case['home'] + '/.ndn', 'tpm': case['home'] + '/.ndn/ndnsec-key-file'}
+    out = {}
+    for k in ('transport', 'pib', 'tpm'):
+        fv = None
+        for l in case['conf'] or []:
+            if l[0] == 'kv' and l[1].lower() == k and fv is None:
+                fv = l[2]
+        src = 'env' if case['env'][k] is not None else 'file' if fv is not None else 'default'
+        val = case['env'][k] if src == 'env' else fv if src == 'file' else {'pib': 'pib-sqlite3', 'tpm': 'tpm-file', 'transport': None}[k]
+        if k == 'transport':
+            out[k] = {'src': src, 'value': val}
+            continue
+        sp = val.split(':')
+        scheme, loc = (sp[0], '') if len(sp) == 1 else (sp[0], sp[1]) if len(sp) == 2 else (None, None)
+        cands = []
+        if loc:
+            cands.append(loc)
+            if conf is not None and not loc.startswith((T, '/')):
+                cands.append(posixpath.join(posixpath.dirname(conf), loc))
+        cands.append(dflt[k])
+        out[k] = {'src': src, 'value': val, 'scheme': scheme, 'loc': loc, 'cands': cands}
+    return out
+
+
+def _run_store(case):
+    import tempfile, shutil
+    root = os.path.realpath(tempfile.mkdtemp(prefix='c20fs', dir=_scratch_parent()))
+    real = lambda q: q.replace(T, root)        # noqa
+    canon = lambda q: q.replace(root, T) if isinstance(q, str) else q        # noqa
+    saved_env = {k: os.environ.get(k) for k in ['HOME'] + ['NDN_CLIENT_' + k.upper() for k in ENVKEYS]}
+    saved_cwd = os.getcwd()
+    obs = {'op': 'store', 'raised': None, 'result': None, 'kc_raised': None, 'kc': None, 'skip': None}
+    try:
+        try:
+            os.makedirs(real(case['home']))
+            os.makedirs(real(case['cwd']), exist_ok=True)
+            where = {}
+            for path, kind, label in case['dirs']:
+                os.makedirs(real(path), exist_ok=True)
+                if kind != 'dir':
+                    for fn, data in _template(kind, label).items():
+                        with open(os.path.join(real(path), fn), 'wb') as f:
+                            f.write(data)
+                where[os.path.normpath(real(path))] = [kind, label]
+            if case['conf'] is not None:
+                os.makedirs(real(case['home']) + '/.ndn', exist_ok=True)
+                text = render([[real(x) if isinstance(x, str) else x for x in l] for l in case['conf']],
+                              '\r\n' if case.get('eol') == 'crlf' else '\n')
+                with open(real(case['home']) + '/.ndn/client.conf', 'w', newline='') as f:
+                    f.write(text)
+        except (OSError, UnicodeError) as e:     # a name this file system / locale cannot hold: no case
+            obs['skip'] = type(e).__name__
+            return obs
+        cwd = real(case['cwd'])
+        os.chdir(cwd)
+        os.environ['HOME'] = real(case['home'])
+        for k in ENVKEYS:
+            os.environ.pop('NDN_CLIENT_' + k.upper(), None)
+            if case['env'][k] is not None:
+                os.environ['NDN_CLIENT_' + k.upper()] = real(case['env'][k])
+        # what is there, measured by the harness before the library runs
+        at = {}
+        for k, st in _store_settings(case).items():
+            for c in st.get('cands', []):
+                q = real(c)
+                at[c] = [os.path.exists(q)] + where.get(os.path.normpath(os.path.join(cwd, q)), ['', ''])     # (no symlinks in the scratch directory)
+        obs['at'] = at
+        obs['other_conf'] = [q for q in ('/usr/local/etc/ndn/client.conf', '/opt/local/etc/ndn/client.conf', '/etc/ndn/client.conf')
+                             if os.path.exists(q)]
+        obs['sockets'] = [q for q in ('/run/nfd/nfd.sock', '/run/nfd.sock') if os.path.exists(q)]
+        before = _snapshot(root)
+        import ndn.client_conf as cc
+        from ndn.encoding import Name
+        try:
+            res = cc.read_client_conf()
+            obs['result'] = {k: canon(res.get(k)) for k in ENVKEYS} | {'extra_keys': sorted(set(res) - set(ENVKEYS))}
+        except Exception as e:     # noqa
+            obs['raised'] = _exc(e)
+            return obs
+        kc = None
+        import sys
+        hook, sys.unraisablehook = sys.unraisablehook, lambda *a: None     # (a keychain that failed to open complains in __del__)
+        try:
+            kc = cc.default_keychain(res['pib'], res['tpm'])
+            labels = sorted({l for _, kd, l in case['dirs'] if kd == 'tpm'})
+            seen = [l for l in labels if kc.tpm.key_exist(Name.from_str('/tpm/' + l + '/KEY/k'))]
+            ids = sorted(Name.to_str(n) for n in kc)
+            mid = _snapshot(root)
+            kc.tpm.save_key(Name.from_str('/tpm/probe/KEY/k'), b'probe')
+            obs['kc'] = {'identities': ids, 'keys_seen': seen}
+        except Exception as e:     # noqa
+            obs['kc_raised'] = _exc(e)
+        finally:
+            if kc is not None:
+                try:
+                    kc.shutdown()
+                except Exception:     # noqa
+                    pass
+            kc = None
+            sys.unraisablehook = hook
+        after = _snapshot(root)
+        if obs['kc'] is not None:
+            obs['kc']['changed_by_open'] = sorted(canon(q) for q in set(before) | set(mid) if before.get(q) != mid.get(q))
+            obs['kc']['changed_by_save'] = sorted(canon(q) for q in set(after) | set(mid) if after.get(q) != mid.get(q))
+        else:
+            obs['changed'] = sorted(canon(q) for q in set(before) | set(after) if before.get(q) != after.get(q))
+        return obs
+    finally:
+        os.chdir(saved_cwd)
+        for k, v in saved_env.items():
+            if v is None:
+                os.environ.pop(k, None)
+            else:
+                os.environ[k] = v
+        shutil.rmtree(root, ignore_errors=True)
+
+
+def _oracle_store(case, impl):
+    if impl['skip']:
+        return None
+    st = _store_settings(case)
+    if case['conf'] is None and impl['other_conf']:
+        return None                                        # a system-wide file of this machine is in force: not this case's doing
+    if case['conf'] is not None:
+        keys = [l[1].lower() for l in case['conf'] if l[0] == 'kv']
+        if len(keys) != len(set(keys)):
+            return None
+    if any(st[k]['scheme'] is None for k in ('pib', 'tpm')):
+        return None                                        # scheme:loc:extra - the statement names no reading of it
+    if impl['raised']:
+        return f"read_client_conf raised {impl['raised']} on a well-formed configuration"
+    res = impl['result']
+    if res['extra_keys']:
+        return 'result carries unexpected keys'
+    want_tr = st['transport']['value']
+    if want_tr is None:
+        want_tr = 'unix:///run/nfd.sock' if impl['sockets'] == ['/run/nfd.sock'] else 'unix:///run/nfd/nfd.sock'
+    if res['transport'] != want_tr:
+        return f"transport: used {res['transport']!r}, expected {want_tr!r} (environment > first existing file > platform default)"
+    want = {}
+    for k in ('pib', 'tpm'):
+        s = st[k]
+        got = res[k]
+        if not isinstance(got, str) or not got.startswith(s['scheme'] + ':'):
+            return f"{k}: used {got!r}, expected the setting {s['value']!r} (environment > first existing file > platform default)"
+        want[k] = next((c for c in s['cands'] if impl['at'][c][0]), None)
+        if want[k] is not None and got[len(s['scheme']) + 1:] != want[k]:
+            return f"{k}: location {got[len(s['scheme']) + 1:]!r} used, expected {want[k]!r}"
+    # the stores behind the strings: both settings of a supported kind, both locations exist and hold what was put there
+    if st['pib']['scheme'] != 'pib-sqlite3' or st['tpm']['scheme'] != 'tpm-file' or None in want.values():
+        return None
+    pk, pl = impl['at'][want['pib']][1:]
+    tk, tl = impl['at'][want['tpm']][1:]
+    if pk != 'pib':
+        return None                                        # the configured location holds no public-information store
+    if impl['kc_raised']:
+        return (f"the configured public-information store {want['pib']!r} and key store {want['tpm']!r} exist but "
+                f"could not be opened: {impl['kc_raised']}")
+    kc = impl['kc']
+    if kc['identities'] != ['/pib/' + pl]:
+        return (f"public-information store {want['pib']!r} configured (it holds /pib/{pl}), the store in use "
+                f"holds {kc['identities']}")
+    # nothing but the configured stores may have been touched
+    inside = lambda q, base: q == base or q.startswith(base.rstrip('/') + '/')        # noqa
+    norm = {k: posixpath.normpath(want[k] if want[k].startswith(T) else posixpath.join(case['cwd'], want[k])) for k in want}
+    for q in kc['changed_by_open']:
+        if not inside(q, norm['pib']):
+            return f"opening the store configured at {want['pib']!r} changed {q!r}"
+    if tk == 'tpm' and kc['keys_seen'] != [tl]:
+        return f"key store {want['tpm']!r} configured (it holds the key of {tl}), the key store in use sees the keys of {kc['keys_seen']}"
+    if tk != 'tpm' and kc['keys_seen']:
+        return f"key store {want['tpm']!r} configured (no key was put there), the key store in use sees the keys of {kc['keys_seen']}"
+    if not kc['changed_by_save'] or not all(inside(q, norm['tpm']) for q in kc['changed_by_save']):
+        return f"a key saved through the key store configured at {want['tpm']!r} changed {kc['changed_by_save']}"
+    return None
+
+
+
 def run_impl(case):
+    if case['op'] == 'store':
+        return _run_store(case)
     if case['op'] == 'conf':
         files = {p: _render_case(case, ls) for p, ls in case['files']}
         with _virt(case, files) as v:
@@ -843,6 +1289,8 @@ def _in_grammar(s):
 
 
 def model_line(case, impl):
+    if case['op'] == 'store':
+        return None                                        # real file system: oracle only
     if case['op'] == 'conf':
         if case.get('platform', 'linux') != 'linux':
             return None                                    # the generated table of the model is the running platform's
@@ -942,6 +1390,8 @@ def _spec_platform(home, present, platform='linux'):
 
 
 def oracle(case, impl):
+    if case['op'] == 'store':
+        return _oracle_store(case, impl)
     if case['op'] == 'conf':
         plat = impl['platform']
         if plat is None:
@@ -1044,6 +1494,8 @@ def oracle(case, impl):
 
 
 def nontrivial(case, impl):
+    if case['op'] == 'store':
+        return bool(impl['kc'] and impl['kc']['identities'])
     if impl['raised']:
         return False
     if case['op'] == 'parse':
@@ -1078,6 +1530,25 @@ def tags(case, impl):
                                                        'default' if got in plat[k + '_paths'] and got in present else
                                                        'relative' if got in present else 'nothing-exists')
                 t.append(f'{k}:{src}:{how}')
+    elif case['op'] == 'store':
+        if impl['skip']:
+            return t + ['store:skipped:' + impl['skip']]
+        st = _store_settings(case)
+        for k in ('pib', 'tpm'):
+            if st[k]['scheme'] is None:
+                t.append(f'store:{k}:three-part-value')
+                continue
+            i = next((j for j, c in enumerate(st[k]['cands']) if impl['at'][c][0]), None)
+            how = 'nothing-exists' if i is None else 'default' if i == len(st[k]['cands']) - 1 else 'given' if i == 0 else 'relative'
+            t.append(f"store:{k}:{st[k]['src']}:{how}")
+            if i is not None:
+                q = st[k]['cands'][i]
+                for name, pat in (('%HH', r'%[0-9A-Fa-f]{2}'), ('?', r'\?'), ('#', '#'), ('blank', r'\s'), ('non-ascii', r'[^\x00-\x7f]'),
+                                  ('$', r'\$'), ('~', '~'), ('=;', '[=;]'), ('quote-glob', r'''['"*\[\]{}\\|<>^`()!&]'''), (':', ':'),
+                                  ('trailing-dot', r'\.(/|$)')):
+                    if re.search(pat, q[len(T):] if q.startswith(T) else q):
+                        t.append(f'store:{k}-path-has:{name}')
+        t.append('store:keychain:' + ('opened' if impl['kc'] else 'raised' if impl['kc_raised'] else 'not-reached'))
     elif case['op'] == 'parse':
         if not impl['raised']:
             t.append('parse-keys:%d' % min(len(impl['got']), 3))
